@@ -137,7 +137,14 @@ pub fn observe_rt(it: &Item) -> String {
         st
     }));
     match r {
-        Ok(s) => format!("( roundtrip {} {} {} )", enc_item(it), enc_name(&printed), enc_items_top_first(&stack_items(&s.exec_stack))),
+        Ok(s) => {
+            // the implementation's own print of what it parsed back (the property is about this text)
+            let reprint = catch_unwind(AssertUnwindSafe(|| s.exec_stack.to_string()));
+            match reprint {
+                Ok(rp) => format!("( roundtrip {} {} {} {} )", enc_item(it), enc_name(&printed), enc_items_top_first(&stack_items(&s.exec_stack)), enc_name(&rp)),
+                Err(_) => format!("( roundtrip {} {} {} PANIC )", enc_item(it), enc_name(&printed), enc_items_top_first(&stack_items(&s.exec_stack))),
+            }
+        }
         Err(_) => format!("( roundtrip {} {} PANIC )", enc_item(it), enc_name(&printed)),
     }
 }
